@@ -435,6 +435,29 @@ func c09(c *Ctx) {
 		c.R.Unknown("NewAPIConnectionPropagator", "", "constructor not found")
 	}
 
+	c.R.Rule("R9.9", "a FromFieldPath detail has a value only if the field was read", 1,
+		"a field that is absent on the composed resource would be published as the literal null instead of being left out: a value the composition never produced")
+	if ff := c.fn(pkgComposite, "fromFieldPath"); ff != nil {
+		var okRead []cfgx.Edge
+		n := 0
+		for _, x := range cfgx.Calls(ff, nil) {
+			if nm := cfgx.CalleeName(x); strings.HasSuffix(nm, "fieldpath.Paved).GetString") || strings.HasSuffix(nm, "fieldpath.Paved).GetValue") {
+				n++
+				okRead = append(okRead, cfgx.ErrEvents(x).RawOK...)
+			}
+		}
+		if n == 0 {
+			c.R.Unknown(load.FuncName(ff)+": reads", c.pos(ff.Pos()), "no fieldpath read found")
+		}
+		bad := ""
+		for _, x := range cfgx.ErrorReturnsFrom(entryEdges(ff), okRead) {
+			if !x.NonNil {
+				bad = c.pos(x.At.Pos())
+			}
+		}
+		c.R.Check(bad == "" && len(okRead) > 0, load.FuncName(ff)+": value only after a successful read", c.pos(ff.Pos()), "every return that can carry a nil error lies behind the unfiltered success edge of GetString/GetValue", "a value can be returned with a nil error although no read of the field succeeded (return at "+bad+")")
+	}
+
 	c.R.Rule("R9.7", "extraction dispatches on every ConnectionDetailType; optional pointers are dereferenced after their nil test", 4, "an extract config would panic the reconciler or be ignored silently")
 	if ex := c.fn(pkgComposite, "ExtractConnectionDetails"); ex != nil {
 		cdt := c.P.NamedType(pkgComposite, "ConnectionDetailType")
